@@ -97,6 +97,16 @@ def program(stack, kind, sched=None):
         stack.check("after context()", sched)
         a.finish()
         stack.check("after finish", sched)
+    elif kind == 3:
+        # the main thread created this action (inside main:A) and handed it over un-entered
+        job = stack.handed
+        with job:
+            stack.items.append(job)
+            stack.check("inside the handed-over action", sched)
+            log_message("w:m", who=who)
+            stack.items.pop()
+        stack.check("after the handed-over action", sched)
+        log_message("w:after", who=who)
     else:
         try:
             with start_action(action_type="w:f", who=who) as a:
@@ -128,7 +138,7 @@ def body_E1(ctx):
     received = []
     Logger._destinations.add(received.append)
     nworkers = sh.get("workers", 2)
-    kinds = [ctx.choose(3, "program of worker %d" % i) for i in range(nworkers)]
+    kinds = [ctx.choose(4 if sh.get("handover", 1) else 3, "program of worker %d" % i) for i in range(nworkers)]
     via = [ctx.choose(2, "plain thread / preserve_context %d" % i) if sh.get("preserve", 1) else 0 for i in range(nworkers)]
     sched = Sched(ctx, watch={ACTION_FILE: ENTRY_POINTS}, preemptions=sh.get("P", 2), granularity="call")
     main_stack = Stack(ctx, "main")
@@ -140,6 +150,9 @@ def body_E1(ctx):
             main_stack.items.append(A)
             threads = []
             for i in range(nworkers):
+                if kinds[i] == 3:
+                    stacks[i].handed = start_action(action_type="main:job", who="main", for_worker=i)
+                    main_stack.check("after creating an action for w%d" % i, sched)
                 def target(i=i):
                     program(stacks[i], kinds[i], sched)
 
@@ -210,6 +223,9 @@ def body_E1(ctx):
         pw = parent.get("who")
         if parent["action_type"] == "eliot:remote_task":
             continue  # worker items directly under the continued task
+        if parent["action_type"] == "main:job":
+            ctx.check(who == "w%d" % parent["for_worker"], "the action handed to w%d contains an item of %s", parent["for_worker"], who)
+            continue
         if m.get("action_type") == "eliot:remote_task":
             ctx.check(pw == "main", "remote task attached under %r", parent)
             continue
@@ -230,6 +246,8 @@ def _prog_canon(kind, who):
         return [("a", "w:a", "succeeded", tuple(sorted([("m", "w:m", who), ("a", "w:b", "succeeded", (("m", "w:m2", who),))], key=repr)))]
     if kind == 1:
         return [("a", "w:c", "succeeded", (("m", "w:m", who),))]
+    if kind == 3:
+        return [("m", "w:after", who)]
     return [("a", "w:f", "failed", (("m", "w:m", who),)), ("m", "w:after", who)]
 
 
@@ -239,6 +257,8 @@ def expected_forest(kinds, via):
     for i, (k, v) in enumerate(zip(kinds, via)):
         who = "w%d" % i
         items = _prog_canon(k, who)
+        if k == 3:
+            main_children.append(("a", "main:job", "succeeded", (("m", "w:m", who),)))
         if v:
             main_children.append(("a", "eliot:remote_task", "succeeded", tuple(sorted(items, key=repr))))
         else:
@@ -379,7 +399,7 @@ OBLIGATIONS = [
         shards=_e1_shards,
         twin=[{"workers": 2, "P": 1, "preserve": 1, "twin_label": "interleaved"}],
         timeout={"quick": 100, "thorough": 1500},
-        bounds={"quick": "main + 2 worker threads, 3 worker programs each, plain or preserve_context, <= 1 preemption (plus all forced switches) at call granularity", "thorough": "additionally 2 plain workers with <= 2 preemptions and 3 plain workers with <= 1"},
+        bounds={"quick": "main + 2 worker threads, 4 worker programs each (one enters an action the main thread created and handed over), plain or preserve_context, <= 1 preemption (plus all forced switches) at call granularity", "thorough": "additionally 2 plain workers with <= 2 preemptions and 3 plain workers with <= 1"},
     ),
     Ob(
         "E2",
